@@ -16,7 +16,7 @@ RULE = ("Hypothesis-generated synthetic rulesets; EVERY pre-terminal of the mode
         "probabilities. Non-trivial = product of group sizes >= 2 and an alpha word not at position 0, or adjacent alpha "
         "words, or a Markov level with >= 2 strings; distinct = hash of (model, pre-terminal).")
 ASSUMPTIONS = ["values within one variable are unique (as the trainer guarantees)",
-               "alpha letters have a one-character str.upper()"]
+               "a 'U' in a mask means str.upper() of that one character (which may be longer than one character, e.g. ß -> SS)"]
 
 _DIR = None
 
